@@ -18,8 +18,8 @@ FFT = {'quick': dict(Ns=range(1, 7), Qs=[(1, 1), (2, 1), (3, 1)]),
        'thorough': dict(Ns=range(1, 10), Qs=[(1, 1), (2, 1), (3, 1), (4, 1), (3, 2)])}
 FS = {'quick': dict(shapes=[(1, 1), (2, 3), (4, 4), (5, 4), (3, 6)], lams=[(1, 2), (633, 1000)], dxs=[(1, 4), (1, 1)],
                     zs=[(0, 1), (1, 1), (-1, 1), (5, 2), (-5, 2), (3, 1)]),
-      'thorough': dict(shapes=[(1, 1), (2, 3), (4, 4), (5, 4), (3, 6), (7, 7), (8, 5), (1, 6)], lams=[(1, 2), (633, 1000), (31, 20)],
-                       dxs=[(1, 4), (1, 1), (3, 8)], zs=[(0, 1), (1, 1), (-1, 1), (5, 2), (-5, 2), (3, 1), (10, 1), (-7, 4)])}
+      'thorough': dict(shapes=[(1, 1), (2, 3), (4, 4), (5, 4), (3, 6), (6, 5), (8, 4), (1, 6)], lams=[(1, 2), (633, 1000), (31, 20)],
+                       dxs=[(1, 4), (1, 1), (3, 8)], zs=[(0, 1), (1, 1), (-1, 1), (5, 2), (-5, 2), (3, 1), (4, 1), (-7, 4)])}   # (menus sized to stay inside TLC's 32-bit integers)
 
 
 def energy(a, np):
